@@ -149,6 +149,10 @@ pub fn dump(args: &[String]) -> i32 {
         }
     };
     let recovery_events = iohook::begins();
+    if abort_at.is_none() && recovery_events > 0 {
+        // the ordered Begin / End events of the recovery itself, for the Lean order monitor (`recovery <file>`)
+        let _ = std::fs::write(format!("{out}.rtrace"), iohook::trace_lines_since(0).join("\n") + "\n");
+    }
     iohook::set_mode(Mode::Observe);
     if abort_at.is_some() {
         // nested-crash probe: the recovery finished before reaching the requested event
@@ -299,6 +303,10 @@ pub fn run(args: &[String], out: &mut Sink) {
     let segsize = arg(args, "--segsize");
     let exe = std::env::current_exe().unwrap();
     let pid = std::process::id();
+    let outdir = arg(args, "--out").unwrap_or("work/out".into());
+    let _ = std::fs::create_dir_all(&outdir);
+    let root_out = std::fs::canonicalize(&outdir).map(|p| p.to_string_lossy().to_string()).unwrap_or(outdir.clone());
+    let _ = std::fs::remove_dir_all(format!("{root_out}/rtrace"));
     for case in 0..cases {
         // ---- observe run ----
         let (r, cfg) = gen_case(seed, case, &focus);
@@ -529,7 +537,19 @@ pub fn run(args: &[String], out: &mut Sink) {
                         out.add("nested_recovery_events", k2);
                         }
                     }
+                    let _ = std::fs::remove_file(format!("{rep_file}.rtrace"));
                     let rc2 = run_timeout(&mut dump_cmd(None, &rep_file), 60);
+                    // the recovery's own I/O trace goes to the Lean order monitor (kept in the output directory)
+                    if std::path::Path::new(&format!("{rep_file}.rtrace")).exists() {
+                        let keep = format!("{root_out}/rtrace");
+                        let _ = std::fs::create_dir_all(&keep);
+                        let dst = format!("{keep}/c{case}_o{si}_k{k}_{}.txt", var.replace(':', "-"));
+                        if std::fs::rename(format!("{rep_file}.rtrace"), &dst).is_ok() || std::fs::copy(format!("{rep_file}.rtrace"), &dst).is_ok() {
+                            out.line(format!("recovery {dst}"), "skip".into());
+                            out.count("recovery_traces");
+                        }
+                        let _ = std::fs::remove_file(format!("{rep_file}.rtrace"));
+                    }
                     let prop = match mode.as_str() { "power" | "nested-power" => "C04", "fault" => "C14", _ => "C03" };
                     match rc2 {
                         None => out.fail(format!("{prop} reopening HANGS after {desc}")),
@@ -855,7 +875,7 @@ pub fn placement(args: &[String], out: &mut Sink) {
                     }
                 } else if !snap.is_empty() {
                     let tr = iohook::trace_lines_since(start_idx);
-                    let nev = tr.len();
+                    let nev = tr.iter().filter(|l| l.contains(" Begin ")).count();
                     let _ = std::fs::write(format!("{snap}/trace.txt"), tr.join("\n") + "\n");
                     lines.lock().unwrap().push((snap.clone(), op.what.to_string(), nev));
                 }
